@@ -117,6 +117,15 @@ def r2(ctx):
             ok = isinstance(sl.lower, ast.Constant) and sl.lower.value == 1 and sl.upper is None and sl.step is None
             ok = ok and u(c.args[0]) == "%s[0]" % seq and u(c.args[1]) == u(lp.target)
         ctx.ob(fc.qual, "all-merged-with-first:%s" % seq, ok, fc.loc(c), "every element of %s after the first is merged with %s[0]" % (seq, seq) if ok else "merge loop does not join all of %s[1:] with %s[0]" % (seq, seq))
+    # every read of the read set reaches its merge loop: nothing skips a read
+    read_merge = [c for c in merges if "master_block" not in u(c) and mb_p not in u(c)]
+    if read_merge:
+        ml = read_merge[0]
+        while ml is not None and not isinstance(ml, ast.For):
+            ml = ml.parent
+        mnode = cfg.node_of(ml)
+        probs = util.check_loop_conservation(cfg, rl[0], lambda n: n == mnode)
+        ctx.ob(fc.qual, "every-read-contributes-its-links", not probs, fc.loc(rl[0]), "every read of the set reaches the merge loop (no read is skipped, the read loop has no early exit)" if not probs else "a read can be skipped before its positions are merged: variants it links end up in different phase sets", cfg.describe_path(probs[0][1]) if probs else None)
     mbm = [c for c in merges if "master_block" in u(c) or mb_p in u(c)]
     ok = len(mbm) == 1 and ("None is %s" % mb_p, False) in guard_atoms(cfg, cfg.node_containing(mbm[0]))
     ctx.ob(fc.qual, "master-block-merged-when-given", ok, fc.loc(mbm[0]) if mbm else fc.loc(), "the master block is merged into one component whenever it is given" if ok else "master block merge is not guarded by `master_block is not None`")
@@ -238,11 +247,20 @@ def r5(ctx):
     ctx.ob(vr.qual, "variant-positions-are-record-start", ok, vr.loc(), "variant positions come from record.start (0-based), the same coordinate the writer uses" if ok else "variant positions are not record.start")
 
 
+def r6(ctx):
+    """A phase set in the output must come from this run's components: old phase of target calls is removed
+    from every record, including the ones the writer skips (shared with C09.R2)."""
+    from rules import c09
+
+    c09.r2(ctx)
+
+
 RULES = [
     ("C03.R1", "min-root: smaller value stays representative; compression to root", r1),
     ("C03.R2", "find_components merges all positions of a read through the first", r2),
     ("C03.R3", "solver, components and read list use one read set", r3),
     ("C03.R4", "master block only for families with genetic haplotyping", r4),
     ("C03.R5", "phase set names are 0-based start + 1", r5),
+    ("C03.R6", "no phase set survives from the input (old phase removed everywhere)", r6),
 ]
-FLOORS = {"C03.R1": 8, "C03.R2": 9, "C03.R3": 6, "C03.R4": 8, "C03.R5": 6}
+FLOORS = {"C03.R1": 8, "C03.R2": 10, "C03.R3": 6, "C03.R4": 8, "C03.R5": 6, "C03.R6": 8}
